@@ -38,6 +38,10 @@ pub(crate) mod onchaintx;
 pub(crate) mod package;
 pub mod transaction;
 
+/// Verification hooks (feature `_verif_hooks` only) over the claim-package arithmetic.
+#[cfg(feature = "_verif_hooks")]
+pub use package::verif_hooks_package;
+
 /// Identifies a position in the chain by its block hash and height, along with recent ancestor
 /// hashes used to locate the fork point of a reorg.
 #[derive(Clone, Copy, Debug, Hash, PartialEq, Eq)]
